@@ -83,6 +83,7 @@ def _enc_claim(enc, cl, D):
         out["v"] = enc.idx[cl["v"]]
         out["vals"] = [E.enc_s(v, D) for v in cl["vals"]]
         out["start"] = E.enc_s(cl["start"], D)
+        out["exempt"] = bool(cl.get("exempt", True))
     if cl["t"] == "equiv":
         out["va"] = [enc.idx[v] for v in cl["va"]]
         out["vb"] = [enc.idx[v] for v in cl["vb"]]
